@@ -27,6 +27,7 @@ THEOREMS = [
     "C34_chain_classification",
     "C34_chain_guard_needed",
     "C34_conversions_idempotent",
+    "C34_semver_to_pep_preserves_version",
     "C34_roundtrip_semver_trailing_newline",
     "C34_whitespace_irrelevant",
     "C34_spellings_injective",
@@ -51,7 +52,8 @@ EXPLANATION = (
     "classification respects that equivalence; every answer characterised by an iff; along every ascending chain of "
     "versions the end-to-end classification is fixed by the most significant position any step touched (major iff some "
     "step is major; maximum severity when every step touches major/minor/patch; witness that the guard is needed); "
-    "semver_to_pep440 / pep440_to_semver / normalisation idempotent on every string; printers injective. Tag side "
+    "semver_to_pep440 / pep440_to_semver / normalisation idempotent on every string; semver_to_pep440 never changes the "
+    "version of any string packaging accepts (label error or same version); printers injective. Tag side "
     "(model M15b): strip_refs_prefix (str.replace), infer_tag_metadata, remove_tag_prefix, extract_semver, "
     "compute_suffix_and_version, previous_tag and the compute-tag-metadata command composed from them: for every "
     "package name and every strictly descending release history the command classifies each tag against its "
@@ -380,6 +382,32 @@ def monitor_pep(I: dict, case: dict) -> Violation | None:
     return None
 
 
+def monitor_s2p_preserves(I: dict, case: dict) -> tuple[Violation | None, str]:
+    """semver_to_pep440 on ANY accepted spelling: label error, or a string denoting the same version."""
+    s = case["s"]
+    try:
+        before = I["Version"](s)
+    except Exception:
+        return None, "not-a-version"
+    try:
+        t = I["s2p"](s)
+    except ValueError as e:
+        if "Unsupported pre-release label" in str(e):
+            return None, "label-error"
+        return Violation("C34/s2p_raises", f"semver_to_pep440({s!r}) raised ValueError: {e}", case), "raises"
+    except Exception as e:
+        return Violation("C34/s2p_raises", f"semver_to_pep440({s!r}) raised {type(e).__name__}: {e}", case), "raises"
+    try:
+        after = I["Version"](t)
+    except Exception as e:
+        return Violation(f"C34/s2p_result_not_a_version[{case.get('style', '?')}]",
+                         f"semver_to_pep440({s!r}) = {t!r}, which packaging rejects ({type(e).__name__})", case), "rejected"
+    if (after.release, after.pre) != (before.release, before.pre) or str(after) != str(before):
+        return Violation(f"C34/s2p_changes_version[{case.get('style', '?')}]",
+                         f"semver_to_pep440({s!r}) = {t!r}: denotes {after}, the input denotes {before}", case), "changed"
+    return None, "converted" if t != s else "unchanged"
+
+
 def monitor_semver(I: dict, case: dict) -> Violation | None:
     v, s = case["ver"], case["s"]
     want = canon_semver(v)
@@ -562,7 +590,7 @@ def run(env: Env) -> Outcome:
             cases.append({"kind": "raw", "op": op})
     # extension: tag side, histories, chains, publish side (own budget; the stream above is unchanged)
     cases += TG.tag_corpus(V)
-    for _ in range(env.budget(1100, 200000)):
+    for _ in range(env.budget(1100, 120000)):
         m = rng.random()
         if m < 0.35:
             cases.append(TG.make_tag_case(rng, gen_ver, canon_semver, canon_pep, gen_garbage))
@@ -585,12 +613,18 @@ def run(env: Env) -> Outcome:
             out.count("release-length:" + str(min(len(case["ver"]["rel"]), 6)) + ("+" if len(case["ver"]["rel"]) > 6 else ""))
             out.count("pre:" + (case["ver"]["pre"][0] if case["ver"]["pre"] else "none"))
             v = monitor_pep(I, case)
+            v2, how = monitor_s2p_preserves(I, case)
+            out.count("s2p-on-pep-spelling:" + how)
+            v = v or v2
             out.nontrivial(("pep", case["s"]))
             out.sample({"pep440": case["s"], "semver": I["p2s"](case["s"]), "normalized": canon_pep(case["ver"])})
         elif k == "semver":
             out.count("semver-spelling:" + case.get("style", "?"))
             out.count("release-length:" + str(min(len(case["ver"]["rel"]), 6)) + ("+" if len(case["ver"]["rel"]) > 6 else ""))
             v = monitor_semver(I, case)
+            v2, how = monitor_s2p_preserves(I, case)
+            out.count("s2p-on-semver-spelling:" + how)
+            v = v or v2
             out.nontrivial(("semver", case["s"]))
         elif k == "pair":
             rel = cmp_spec(case["c"]["ver"], case["p"]["ver"])
